@@ -178,13 +178,17 @@ def paired_runs(ctx, stop_first=False):
             # the applied field is re-evaluated (and re-scaled from the user's units) at every step
             dict(kind="ring", B=0.6e-3, I=None, screening=True, td=True), dict(kind="bar", B=0.5e-3, I=2e-6, screening=False, td=True),
             # a non-uniform drive stated with its own current unit: the field of a 5 mA loop above the film
-            dict(kind="ring", B=None, I=None, screening=False, loop=dict(I=5e-3, R=1.5e-6, center=(0.3e-6, -0.2e-6, 1.0e-6)))]
+            dict(kind="ring", B=None, I=None, screening=False, loop=dict(I=5e-3, R=1.5e-6, center=(0.3e-6, -0.2e-6, 1.0e-6))),
+            # ... and the same with the film itself off the z = 0 plane (the height is a length in the user's units too)
+            dict(kind="ring", B=None, I=None, screening=False, z0=0.4e-6, loop=dict(I=5e-3, R=1.5e-6, center=(0.3e-6, -0.2e-6, 1.2e-6)))]
     for cfg in cfgs:
         ref_dev = device_in_units(cfg["kind"], "um", 5, lam=(0.5 if cfg["screening"] else 2.0))
         results = []
         for lu, fu, cu in combos:
             dev = device_in_units(cfg["kind"], lu, 5, mesh_from=ref_dev, lam=(0.5 if cfg["screening"] else 2.0))
-            out = os.path.join(str(ctx.work), f"c08_{cfg['kind']}_{int(bool(cfg.get('td')))}_{int(bool(cfg.get('loop')))}_{int(cfg['screening'])}_{lu}_{fu}_{cu}.h5")
+            if cfg.get("z0"):
+                dev.layer.z0 = cfg["z0"] / LENGTHS[lu]
+            out = os.path.join(str(ctx.work), f"c08_{cfg['kind']}_{int(bool(cfg.get('td')))}_{int(bool(cfg.get('loop')))}_{int(bool(cfg.get('z0')))}_{int(cfg['screening'])}_{lu}_{fu}_{cu}.h5")
             if os.path.exists(out):
                 os.remove(out)
             opts = runs.options(solve_time=0.1, dt_init=5e-3, save_every=4, output_file=out, field_units=fu, current_units=cu,
